@@ -221,6 +221,50 @@ pub fn run_c05(a: &Args, rep: &mut Report) {
             rep.violation(&format!("C05:verifier-hole:{what}"), format!("a verifier-accepted program performs an illegal action at pc {pc}: {what} (interpreter: {})", ir.ran.short()), w());
         }
     }
+    // Only strings the default verifier accepts may ever be interpreted. A VM that holds a program
+    // and on which a set_verifier() call just FAILED (the candidate refuses the loaded program, and
+    // would accept anything else) still has the default verifier in force: strings it refuses must
+    // be refused there too - if one is loaded it is run, to show what the interpreter does with it.
+    {
+        fn refuses_only_held(p: &[u8]) -> Result<(), rbpf::lib::Error> {
+            if p == &HELD[..] { Err(rbpf::lib::Error::other("harness: refuses the loaded program")) } else { Ok(()) }
+        }
+        const HELD: [u8; 16] = [0xb7, 0, 0, 0, 1, 0, 0, 0, 0x95, 0, 0, 0, 0, 0, 0, 0];
+        let m = if q { 30_000 } else { 600_000 } / a.nshards.max(1);
+        for _ in 0..m {
+            let (prog, origin) = hostile_prog(&mut rng);
+            let kind = crate::engines::KINDS[rng.below(4) as usize];
+            if accepted(kind, &prog) {
+                continue;
+            }
+            rep.count("refused_strings_offered_after_failed_set_verifier");
+            let r = sys::catch(|| -> Result<Option<String>, String> {
+                let mut vm = Vm::new(kind, Some(&HELD), (0, 8))?;
+                if vm.set_verifier(refuses_only_held).is_ok() {
+                    return Err("set_verifier succeeded although the candidate refuses the loaded program".into());
+                }
+                match vm.set_program(&prog, (0, 8)) {
+                    Err(_) => Ok(None),
+                    Ok(()) => {
+                        hooks::reset(C05_BUDGET, false);
+                        let mut pkt = [0u8; 16];
+                        let ran = std::panic::catch_unwind(std::panic::AssertUnwindSafe(|| vm.exec((pkt.as_mut_ptr(), if kind == Kind::NoData { 0 } else { 16 }), (std::ptr::null_mut(), 0))));
+                        Ok(Some(match ran {
+                            Ok(r) => format!("{r:?}").chars().take(80).collect(),
+                            Err(_) => "the interpreter PANICKED on it".to_string(),
+                        }))
+                    }
+                }
+            });
+            match r {
+                Ok(Ok(None)) => {}
+                Ok(Ok(Some(what))) => rep.violation("C05:unverified-program-loaded:after-failed-set_verifier", format!("a string the default verifier refuses was loaded on a VM whose set_verifier() call had failed, and interpreted: {what}"), json!({"kind": "verify-case", "prog": hex(&prog[..prog.len().min(512)]), "len": prog.len(), "origin": origin, "vm": kind.name()})),
+                Ok(Err(e)) => rep.violation("C05:harness-scenario", e, json!({"kind": "verify-case", "prog": hex(&prog[..prog.len().min(512)]), "origin": origin})),
+                Err(p) => rep.violation(&format!("C05:panic:{}:at-load", sys::panic_site(&p)), p, json!({"kind": "verify-case", "prog": hex(&prog[..prog.len().min(512)]), "origin": origin})),
+            }
+        }
+        hooks::unlimited();
+    }
     // "For every byte string the default verifier accepts": the verdict on a byte string must not
     // depend on what other threads are verifying at the same moment. Soup strings plus long programs
     // whose only defect is the last instruction, verified by 8 threads at once (scattered and in
